@@ -573,9 +573,11 @@ def history_case(E):
 # oracle: forward-mode AD over Fractions on the recorded program (no Coq model, no look at _children /
 # requires_grad / grad_fn of results: only what the program asked for)
 def oracle_values(R):
-    """Per arena node: object array of Duals whose tangents are indexed by (leaf index, element)."""
+    """Per arena node: object array of Duals.  Tangent directions: (leaf index, element) for variable leaves and
+    ("n", node index, element) for every tracked op result (so that d root / d intermediate is available too)."""
     vals = []
-    deps = []
+    deps = []       # variable leaves the node depends on through tracked ops
+    ndeps = []      # tracked op results the node depends on (including itself)
     for i, nd in enumerate(R.nodes):
         t = nd["t"]
         cs = [R.index[id(c)] for c in nd["children_arg"]]
@@ -588,45 +590,74 @@ def oracle_values(R):
             else:
                 a = obj_array([Dual(x) for x in flat], t.data.shape)
                 deps.append(set())
+            ndeps.append(set())
         else:
             a = spec_apply(t._operation, [vals[c] for c in cs], R.params.get(i))
-            if not nd["gm"]:      # computed while gradients are not tracked: a constant
+            d = set()
+            for c in cs:
+                d |= deps[c]
+            if not nd["gm"] or not d:      # computed while gradients are not tracked / from constants only: a constant
                 a = obj_array([Dual(Dual.lift(x).v) for x in a.reshape(-1)], a.shape)
                 deps.append(set())
+                ndeps.append(set())
             else:
-                a = obj_array([Dual.lift(x) for x in a.reshape(-1)], a.shape)
-                d = set()
-                for c in cs:
-                    d |= deps[c]
+                flat = []
+                for j, x in enumerate(a.reshape(-1)):
+                    x = Dual.lift(x)
+                    tt = dict(x.t)
+                    tt[("n", i, j)] = Fraction(1)
+                    flat.append(Dual(x.v, tt))
+                a = obj_array(flat, a.shape)
                 deps.append(d)
+                nn = {i}
+                for c in cs:
+                    nn |= ndeps[c]
+                ndeps.append(nn)
         vals.append(a)
-    return vals, deps
+    return vals, deps, ndeps
+
+
+def _grad_wrt(rv, seed, key, n):
+    g = [sum(Fraction(seed[j]) * Dual.lift(rv[j]).t.get(key + (e,), Fraction(0)) for j in range(len(rv))) for e in range(n)]
+    return g + [Fraction(0)] * (2 - n)
 
 
 def oracle_history(E):
-    """Expected `_grad` of every variable leaf after every observed event, by forward-mode AD.
-    Returns list aligned with E.events: None or {leaf index: None | (a,b)}."""
+    """Expected `_grad` after every observed event, by forward-mode AD:
+       * of every variable leaf: sum over the backward calls since its last reset (None while untouched);
+       * of every intermediate that is retained (retain_grad() earlier, or the call ran inside `with retain_grads()`) and
+         reached by this call, right after the call: d(seed . root)/d(intermediate) of this call alone.
+    Returns a list aligned with E.events: None or {"leaves": {...}, "retained": {...}}."""
     R = E.R
-    vals, deps = oracle_values(R)
+    vals, deps, ndeps = oracle_values(R)
     leaves = [i for i, nd in enumerate(R.nodes) if not nd["children_arg"] and nd["requested"] and nd["gm"]]
     acc = {i: None for i in leaves}
     out = []
     nbuilt = 0
+    retained = set()
+    mode = False
     for ev, ob in zip(E.events, E.obs):
         k = ev[0]
+        extra = {}
         if k == "Build":
             nbuilt = ev[1] + 1
+        elif k == "SetRetainMode":
+            mode = ev[1]
+        elif k == "RetainGrad" and ob != "raised":
+            retained.add(ev[1])
         elif k == "Backward" and ob != "raised":
             root, seed = ev[1], ev[2]
             rv = vals[root].reshape(-1)
             for l in leaves:
                 if l >= nbuilt or l not in deps[root]:
                     continue
-                n = R.nodes[l]["t"].data.size
-                g = [sum(Fraction(seed[j]) * Dual.lift(rv[j]).t.get((l, e), Fraction(0)) for j in range(len(rv))) for e in range(n)]
-                g = g + [Fraction(0)] * (2 - n)
+                g = _grad_wrt(rv, seed, (l,), R.nodes[l]["t"].data.size)
                 old = acc[l] or (Fraction(0), Fraction(0))
                 acc[l] = (old[0] + g[0], old[1] + g[1])
+            for u in ndeps[root]:
+                if u != root and (mode or u in retained):
+                    g = _grad_wrt(rv, seed, ("n", u), R.nodes[u]["t"].data.size)
+                    extra[u] = (g[0], g[1])
         elif k == "ZeroTensor":
             if ev[1] in acc:
                 acc[ev[1]] = (Fraction(0), Fraction(0))
@@ -637,22 +668,23 @@ def oracle_history(E):
         if ob is None or ob == "raised":
             out.append(None)
         else:
-            out.append({l: acc[l] for l in leaves if l < nbuilt})
+            out.append({"leaves": {l: acc[l] for l in leaves if l < nbuilt}, "retained": extra})
     return out
 
 
 def oracle_judge(E):
-    """Compare the oracle with the observed leaf gradients. Returns None or a description of the first difference."""
+    """Compare the oracle with the observed gradients. Returns None or a description of the first difference."""
     exp = oracle_history(E)
     for n, (ob, ex) in enumerate(zip(E.obs, exp)):
         if ex is None:
             continue
-        for l, want in ex.items():
-            got = ob["bufs"][l]
-            w = None if want is None else (int(want[0]), int(want[1]))
-            if got != w:
-                return {"event_index": n, "event": list(E.events[n]) if not isinstance(E.events[n], list) else E.events[n],
-                        "leaf_tensor": l, "expected_grad": w, "observed_grad": got}
+        for kind in ("leaves", "retained"):
+            for l, want in ex[kind].items():
+                got = ob["bufs"][l]
+                w = None if want is None else (int(want[0]), int(want[1]))
+                if got != w:
+                    return {"event_index": n, "event": list(E.events[n]),
+                            ("leaf_tensor" if kind == "leaves" else "retained_intermediate"): l, "expected_grad": w, "observed_grad": got}
     return None
 
 
